@@ -206,7 +206,7 @@ def build_views(raw_fns):
     return views
 
 
-def _splice(f, bid, h, hname):
+def _splice(f, bid, h, hname, thread=True):
     b = f["blocks"][bid]
     t = b["term"]
     loff = len(f["locals"])
@@ -257,7 +257,7 @@ def _splice(f, bid, h, hname):
     # the call becomes a jump into the copy
     b["inlined_call"] = t
     b["term"] = {"k": "goto", "target": e_id, "line": t.get("line"), "exp": None, "inl_call": hname}
-    if t.get("target") is not None:
+    if t.get("target") is not None and thread:
         try:
             _thread_result(f, t, range(e_id, len(f["blocks"])), ret_map.get(0, loff), hname)
         except Exception:
@@ -411,6 +411,143 @@ def _thread_result(f, call, region, retloc, hname):
             blocks[bid]["term"] = _retarget(blocks[bid]["term"], mapping)
 
 
+# ---- closure-taking Option/Result combinators ------------------------------------------------------------------------------------
+# `x.map(|v| e)` / `x.and_then(|v| e)` on Option and Result are rewritten into the match they abbreviate, with the closure body
+# spliced in, so that a maintainer's choice between `match`/`if let` and a combinator does not change what the rules see.
+#   Option::map      Some(v) => Some(C(v)), None => None        Result::map       Ok(v) => Ok(C(v)),  Err(e) => Err(e)
+#   Option::and_then Some(v) => C(v),       None => None        Result::and_then  Ok(v) => C(v),      Err(e) => Err(e)
+# Error-side adaptors (map_err, ok_or_else, unwrap_or_else) keep their call form: the rules already treat them as outcome-preserving.
+COMBINATORS = {
+    # (adt, method): (ok variant, its discr, fail variant, its discr, ok action, fail action, closure arg index or None, arg count)
+    ("std::option::Option", "map"): ("Some", 1, "None", 0, "apply-wrap", "none", 1, 2),
+    ("std::option::Option", "and_then"): ("Some", 1, "None", 0, "apply", "none", 1, 2),
+    ("std::option::Option", "unwrap_or"): ("Some", 1, "None", 0, "payload", ("arg", 1), None, 2),
+    ("std::option::Option", "map_or"): ("Some", 1, "None", 0, "apply", ("arg", 1), 2, 3),
+    ("std::option::Option", "is_some_and"): ("Some", 1, "None", 0, "apply", ("bool", False), 1, 2),
+    ("std::option::Option", "is_none_or"): ("Some", 1, "None", 0, "apply", ("bool", True), 1, 2),
+    ("std::result::Result", "map"): ("Ok", 0, "Err", 1, "apply-wrap", "err-pass", 1, 2),
+    ("std::result::Result", "and_then"): ("Ok", 0, "Err", 1, "apply", "err-pass", 1, 2),
+    ("std::result::Result", "unwrap_or"): ("Ok", 0, "Err", 1, "payload", ("arg", 1), None, 2),
+    ("std::result::Result", "is_ok_and"): ("Ok", 0, "Err", 1, "apply", ("bool", False), 1, 2),
+}
+
+
+def _closure_def_of(f, local):
+    """def path of the closure aggregate assigned (exactly once, no projection) to `local` in f"""
+    hit = None
+    for b in f["blocks"]:
+        for st in b["stmts"]:
+            if st["k"] == "assign" and st["place"]["local"] == local:
+                if st["place"]["proj"]:
+                    return None
+                a = st["rv"].get("aggregate") if isinstance(st.get("rv"), dict) else None
+                if a and a.get("kind") == "closure" and hit is None:
+                    hit = a.get("def")
+                else:
+                    return None
+        t = b["term"]
+        if t["k"] == "call" and not t["dest"]["proj"] and t["dest"]["local"] == local:
+            return None
+    return hit
+
+
+def _new_local(f, ty, tag):
+    n = len(f["locals"])
+    f["locals"].append({"id": n, "ty": ty, "adt": None, "ref": None, "array_len": None, "user": None, "synth": tag})
+    return n
+
+
+def _new_block(f, stmts, term, tag):
+    n = len(f["blocks"])
+    f["blocks"].append({"id": n, "cleanup": False, "stmts": stmts, "term": term, "origin": None, "synth": tag})
+    return n
+
+
+def _desugar_combinator(views, f, bid, depth, stack, pending):
+    """rewrite the combinator call that terminates block `bid` (see COMBINATORS); returns True when rewritten.
+    `pending` collects (target, first new block, result local, label) for the later jump-threading pass."""
+    b = f["blocks"][bid]
+    t = b["term"]
+    key = (t.get("self_adt"), t.get("name"))
+    spec = COMBINATORS.get(key)
+    if spec is None or t.get("resolved_crate") != "core" or t.get("trait") is not None or t.get("target") is None:
+        return False
+    okv, okd, errv, errd, ok_action, fail_action, cidx, nargs = spec
+    if len(t["args"]) != nargs:
+        return False
+    line = t.get("line")
+    adt = key[0]
+    dest, target = t["dest"], t["target"]
+    h = cname = cpl = None
+    if cidx is not None:
+        cop = t["args"][cidx]
+        cpl = cop.get("move") or cop.get("copy")
+        if not cpl or cpl["proj"]:
+            return False
+        cname = _closure_def_of(f, cpl["local"])
+        if cname is None or cname not in views.raw or cname in stack:
+            return False
+        h = views.get(cname, depth + 1, stack + (f.get("_name"),))
+        if len(h["locals"]) < 3 or h.get("arg_count") != 2 or len(f["blocks"]) + len(h["blocks"]) > MAX_VIEW_BLOCKS:
+            return False
+    mk = lambda place, rv: {"k": "assign", "place": place, "rv": rv, "line": line, "exp": None, "synth": True}
+    pl = lambda l, proj=(): {"local": l, "proj": list(proj)}
+    fld = lambda vname, vidx: [{"k": "downcast", "variant": vname, "idx": vidx}, {"k": "field", "idx": 0, "name": "0", "adt": adt}]
+    agg = lambda vname, vidx, ops: {"aggregate": {"kind": "adt", "adt": adt, "variant": vname, "idx": vidx, "fields": ["0"] if ops else []}, "ops": ops}
+    # the subject: the operand's own local when it is a plain move (keeps `discriminant(result)` re-dispatches recognisable)
+    sop = t["args"][0]
+    spl = sop.get("move")
+    pre_subject = []
+    if spl and not spl["proj"]:
+        x = spl["local"]
+    else:
+        x = _new_local(f, t.get("self_ty") or adt, "combinator-subject")
+        pre_subject = [mk(pl(x), {"use": sop})]
+    d = _new_local(f, "isize", "combinator-discr")
+    goto_t = {"k": "goto", "target": target, "line": line, "exp": None}
+    # failure arm
+    if fail_action == "none":
+        fstmts = [mk(dest, agg("None", errd, []))]
+    elif fail_action == "err-pass":
+        e = _new_local(f, "?", "combinator-err")
+        fstmts = [mk(pl(e), {"use": {"move": pl(x, fld("Err", errd))}}), mk(dest, agg("Err", errd, [{"move": pl(e)}]))]
+    elif fail_action[0] == "arg":
+        fstmts = [mk(dest, {"use": t["args"][fail_action[1]]})]
+    else:
+        fstmts = [mk(dest, {"use": {"const": {"ty": "bool", "value": {"bool": fail_action[1]}}}})]
+    b_fail = _new_block(f, fstmts, dict(goto_t), "combinator-fail")
+    # success arm
+    if ok_action == "payload":
+        b_ok = _new_block(f, [mk(dest, {"use": {"move": pl(x, fld(okv, okd))}})], dict(goto_t), "combinator-payload")
+    else:
+        v = _new_local(f, h["locals"][2]["ty"], "combinator-payload")
+        carg = t["args"][cidx]
+        pre = []
+        cty = h["locals"][1]["ty"] or ""
+        if cty.startswith("&"):
+            rc = _new_local(f, cty, "combinator-closure-ref")
+            pre = [mk(pl(rc), {"ref": pl(cpl["local"]), "mut": cty.startswith("&mut")})]
+            carg = {"move": pl(rc)}
+        if ok_action == "apply-wrap":
+            r = _new_local(f, h["locals"][0]["ty"], "combinator-result")
+            b_join = _new_block(f, [mk(dest, agg(okv, okd, [{"move": pl(r)}]))], dict(goto_t), "combinator-wrap")
+            cdest, ctarget = pl(r), b_join
+        else:
+            cdest, ctarget = dest, target
+        call = {"k": "call", "callee": cname, "name": "call_once", "resolved": cname, "resolved_local": True, "args": [carg, {"move": pl(v)}], "dest": cdest,
+                "target": ctarget, "unwind": t.get("unwind"), "line": line, "exp": None, "synth": True, "gargs": [], "trait": None, "self_ty": None, "self_adt": None}
+        b_ok = _new_block(f, [mk(pl(v), {"use": {"move": pl(x, fld(okv, okd))}})] + pre, call, "combinator-apply")
+    # the call block now dispatches on the subject
+    b["stmts"] = list(b["stmts"]) + pre_subject + [mk(pl(d), {"discriminant": pl(x)})]
+    b["desugared_call"] = t
+    b["term"] = {"k": "switch", "discr": {"move": pl(d)}, "targets": [[okd, b_ok]], "otherwise": b_fail, "line": line, "exp": "desugar:Combinator"}
+    if ok_action != "payload":
+        _splice(f, b_ok, h, cname, thread=False)
+    if not dest["proj"]:
+        pending.append((target, b_fail, dest["local"], cname or "combinator"))
+    return True
+
+
 class Views:
     """lazy per-function inlined views over a dict of raw function facts"""
 
@@ -428,6 +565,20 @@ class Views:
             b.setdefault("origin", None)
         if depth <= MAX_DEPTH and name not in stack and not f.get("def_exp"):
             own_ids = [b["id"] for b in f["blocks"]]
+            pending = []
+            for bid in own_ids:
+                tt = f["blocks"][bid]["term"]
+                if tt["k"] == "call" and (tt.get("self_adt"), tt.get("name")) in COMBINATORS and not f["blocks"][bid]["cleanup"]:
+                    try:
+                        _desugar_combinator(self, f, bid, depth, stack, pending)
+                    except Exception:
+                        pass
+            # thread re-dispatches on combinator results, innermost (latest) first so that chained combinators compose
+            for (target, first_new, retloc, label) in pending:
+                try:
+                    _thread_result(f, {"target": target}, [x["id"] for x in f["blocks"] if x["id"] >= first_new and not x["cleanup"]], retloc, label)
+                except Exception:
+                    pass
             for bid in own_ids:
                 b = f["blocks"][bid]
                 t = b["term"]
